@@ -170,29 +170,127 @@ def pair_flow(ctx):
     calls = [c for c in ast.walk(ms.node) if isinstance(c, ast.Call) and ctx.cg.resolve_callee(ms, c.func) == [gc.fq]]
     if len(calls) != 1:
         raise AnalysisError("match_storms: call of get_candidate_match_intervals not found")
-    st = enclosing_stmt(calls[0])
-    if not (isinstance(st, ast.Assign) and isinstance(st.targets[0], ast.Tuple) and len(st.targets[0].elts) == 2
-            and all(isinstance(e, ast.Name) for e in st.targets[0].elts)):
-        raise AnalysisError("match_storms: result of get_candidate_match_intervals is not unpacked into two names")
-    got = [e.id for e in st.targets[0].elts]
-    pair_names = {"rain": got[pos_rain], "jump": got[pos_jump]}
-    lists = {}
-    for n in ast.walk(ms.node):
-        if isinstance(n, ast.Call) and isinstance(n.func, ast.Attribute) and n.func.attr == "append" and len(n.args) == 1 \
-                and isinstance(n.args[0], ast.Name) and isinstance(n.func.value, ast.Name):
-            for k, nm in pair_names.items():
-                if n.args[0].id == nm:
-                    lists[k] = n.func.value.id
-    if set(lists) != {"rain", "jump"}:
-        raise AnalysisError("match_storms: the candidate pairs are not appended to two lists")
+    # component dataflow inside match_storms: what is a rain pair, a jump pair, a (rain, jump) candidate, a list of those
+    comp_name = {pos_rain: "rain", pos_jump: "jump"}
+    gc_call = calls[0]
+
+    def stores_of(name):
+        out = []
+        for n in ast.walk(ms.node):
+            if isinstance(n, ast.Assign) and len(n.targets) == 1:
+                t = n.targets[0]
+                if isinstance(t, ast.Name) and t.id == name:
+                    out.append(("assign", n, None))
+                elif isinstance(t, (ast.Tuple, ast.List)):
+                    for k, e in enumerate(t.elts):
+                        if isinstance(e, ast.Name) and e.id == name:
+                            out.append(("unpack", n, k))
+            elif isinstance(n, ast.For) and enclosing_func(n) is ms.node:
+                t = n.target
+                if isinstance(t, ast.Name) and t.id == name:
+                    out.append(("for", n, None))
+                elif isinstance(t, (ast.Tuple, ast.List)):
+                    for k, e in enumerate(t.elts):
+                        if isinstance(e, ast.Name) and e.id == name:
+                            out.append(("forunpack", n, k))
+        return out
+
+    def grown_by(name):
+        out = []
+        for n in ast.walk(ms.node):
+            if isinstance(n, ast.Call) and isinstance(n.func, ast.Attribute) and isinstance(n.func.value, ast.Name) and n.func.value.id == name \
+                    and n.func.attr in ("append", "extend") and len(n.args) == 1:
+                out.append(n)
+            if isinstance(n, ast.AugAssign) and isinstance(n.target, ast.Name) and n.target.id == name and isinstance(n.op, ast.Add):
+                out.append(n)
+        return out
+
+    def elem_of(k):
+        """element kind of a list kind"""
+        return k[1] if isinstance(k, tuple) and k[0] == "list" else None
+
+    def kind(e, env, depth=0):
+        """'rain' / 'jump' / 'pair' / ('list', one of those) / None"""
+        if depth > 12 or e is None:
+            return None
+        if e is gc_call:
+            return "pair"
+        if isinstance(e, ast.Call) and isinstance(e.func, ast.Name) and e.func.id in ("list", "tuple", "iter", "sorted") and len(e.args) == 1:
+            return kind(e.args[0], env, depth + 1)
+        if isinstance(e, (ast.Tuple, ast.List)) and len(e.elts) == 2 and not isinstance(e.ctx, ast.Store):
+            a, b = kind(e.elts[0], env, depth + 1), kind(e.elts[1], env, depth + 1)
+            if {a, b} == {"rain", "jump"} and comp_name.get(0) == a:
+                return "pair"
+            return None
+        if isinstance(e, ast.List) and not e.elts:
+            return ("list", None)
+        if isinstance(e, (ast.ListComp, ast.GeneratorExp)) and len(e.generators) == 1 and not e.generators[0].ifs:
+            g = e.generators[0]
+            env2 = dict(env)
+            ik = kind(g.iter, env, depth + 1)
+            ek = elem_of(ik)
+            if isinstance(g.target, ast.Name) and ek is not None:
+                env2[g.target.id] = ek
+            elif isinstance(g.target, (ast.Tuple, ast.List)) and len(g.target.elts) == 2 and ek == "pair":
+                for k_, t_ in enumerate(g.target.elts):
+                    if isinstance(t_, ast.Name):
+                        env2[t_.id] = comp_name[k_]
+            r = kind(e.elt, env2, depth + 1)
+            return ("list", r) if r in ("rain", "jump", "pair") else None
+        if isinstance(e, ast.Subscript) and isinstance(e.slice, ast.Constant) and e.slice.value in (0, 1):
+            if kind(e.value, env, depth + 1) == "pair":
+                return comp_name[e.slice.value]
+            return None
+        if isinstance(e, ast.Name):
+            if e.id in env:
+                return env[e.id]
+            kinds_ = set()
+            reach = msflow.reaching_defs(e) if getattr(e, "parent", None) is not None else None
+            reach_stmts = {id(msflow.cfg.stmt_of.get(d)) for d in reach} if reach else None
+            for how, node, k_ in stores_of(e.id):
+                if reach_stmts is not None and id(node) not in reach_stmts:
+                    continue          # a binding that does not reach this use (the name is rebound later / earlier)
+                if how == "assign":
+                    kinds_.add(kind(node.value, env, depth + 1))
+                elif how == "unpack":
+                    v = node.value
+                    vk = kind(v, env, depth + 1)
+                    if vk == "pair" and len(node.targets[0].elts) == 2:
+                        kinds_.add(comp_name[k_])
+                    elif isinstance(v, ast.Call) and isinstance(v.func, ast.Name) and v.func.id == "zip" and len(v.args) == 1 \
+                            and isinstance(v.args[0], ast.Starred) and elem_of(kind(v.args[0].value, env, depth + 1)) == "pair":
+                        kinds_.add(("list", comp_name[k_]))
+                    else:
+                        kinds_.add(None)
+                elif how == "for":
+                    kinds_.add(elem_of(kind(node.iter, env, depth + 1)))
+                elif how == "forunpack":
+                    kinds_.add(comp_name[k_] if elem_of(kind(node.iter, env, depth + 1)) == "pair" and len(node.target.elts) == 2 else None)
+            grows = grown_by(e.id)
+            if grows and kinds_ <= {("list", None)}:
+                kinds_ = set()
+                for gcall in grows:
+                    if isinstance(gcall, ast.AugAssign):
+                        kinds_.add(kind(gcall.value, env, depth + 1))
+                    elif gcall.func.attr == "append":
+                        ek = kind(gcall.args[0], env, depth + 1)
+                        kinds_.add(("list", ek) if ek in ("rain", "jump", "pair") else None)
+                    else:
+                        kinds_.add(kind(gcall.args[0], env, depth + 1))
+            kinds_.discard(("list", None))
+            return kinds_.pop() if len(kinds_) == 1 else None
+        return None
+
     dcalls = [c for c in ast.walk(ms.node) if isinstance(c, ast.Call) and ctx.cg.resolve_callee(ms, c.func) == [dm.fq]]
     if len(dcalls) != 1 or len(dcalls[0].args) != 2:
         raise AnalysisError("match_storms: call of disambiguate_matching(rain, jump) not found")
-    dargs = [a.id if isinstance(a, ast.Name) else None for a in dcalls[0].args]
-    if None in dargs or set(dargs) != {lists["rain"], lists["jump"]}:
-        raise AnalysisError("match_storms: arguments of disambiguate_matching are not the two lists of candidate pairs")
-    ok = dargs == [lists["rain"], lists["jump"]]
-    checks.append((ok, dcalls[0], ms, "disambiguate_matching(%s) receives (rain pairs, jump pairs)" % ", ".join(map(str, dargs))))
+    akinds = [kind(a, {}) for a in dcalls[0].args]
+    if set(akinds) != {("list", "rain"), ("list", "jump")}:
+        raise AnalysisError("match_storms: arguments of disambiguate_matching (%s) are not traced to the lists of rain pairs and jump pairs of the candidates (%s)"
+                            % (", ".join(ast.unparse(a)[:40] for a in dcalls[0].args), akinds))
+    ok = akinds == [("list", "rain"), ("list", "jump")]
+    checks.append((ok, dcalls[0], ms, "disambiguate_matching(%s) receives (%s)" % (", ".join(ast.unparse(a)[:40] for a in dcalls[0].args),
+                                                                                     ", ".join("%s pairs" % k[1] for k in akinds))))
     dst = enclosing_stmt(dcalls[0])
     if not (isinstance(dst, ast.Assign) and isinstance(dst.targets[0], ast.Tuple) and len(dst.targets[0].elts) == 2):
         raise AnalysisError("match_storms: result of disambiguate_matching not unpacked into two names")
@@ -220,8 +318,40 @@ def pair_flow(ctx):
                     and isinstance(n.value.key, ast.Name) and isinstance(n.value.value, ast.Name) \
                     and n.value.key.id == g.target.elts[0].id and n.value.value.id == g.target.elts[1].id:
                 stops[n.targets[0].id] = g.iter.id
+    # ... or STOPS = dict(PARAM), or STOPS[start] = stop stored inside `for (start, stop), (..) in zip(P, Q)` / `for start, stop in P`
+    for n in ast.walk(dm.node):
+        if isinstance(n, ast.Assign) and isinstance(n.targets[0], ast.Name) and isinstance(n.value, ast.Call) and isinstance(n.value.func, ast.Name) \
+                and n.value.func.id == "dict" and len(n.value.args) == 1 and isinstance(n.value.args[0], ast.Name) and n.value.args[0].id in dp[:2]:
+            stops[n.targets[0].id] = n.value.args[0].id
+        if isinstance(n, ast.Assign) and isinstance(n.targets[0], ast.Subscript) and isinstance(n.targets[0].value, ast.Name) \
+                and isinstance(n.targets[0].slice, ast.Name) and isinstance(n.value, ast.Name):
+            loop = getattr(n, "parent", None)
+            if isinstance(loop, ast.For) and n in loop.body:
+                k_, v_ = n.targets[0].slice.id, n.value.id
+                src = None
+                it, tg = loop.iter, loop.target
+                if isinstance(it, ast.Name) and isinstance(tg, ast.Tuple) and len(tg.elts) == 2 and all(isinstance(e, ast.Name) for e in tg.elts) \
+                        and [e.id for e in tg.elts] == [k_, v_]:
+                    src = it.id
+                elif isinstance(it, ast.Call) and isinstance(it.func, ast.Name) and it.func.id == "zip" and isinstance(tg, ast.Tuple) and len(tg.elts) == len(it.args):
+                    for a_, t_ in zip(it.args, tg.elts):
+                        if isinstance(a_, ast.Name) and isinstance(t_, ast.Tuple) and len(t_.elts) == 2 and all(isinstance(e, ast.Name) for e in t_.elts) \
+                                and [e.id for e in t_.elts] == [k_, v_]:
+                            src = a_.id
+                # the table is written nowhere else
+                others = [m for m in ast.walk(dm.node) if isinstance(m, ast.Assign) and m is not n and isinstance(m.targets[0], ast.Subscript)
+                          and isinstance(m.targets[0].value, ast.Name) and m.targets[0].value.id == n.targets[0].value.id]
+                if src is not None and not others:
+                    stops[n.targets[0].value.id] = src
     # appended tuples (x, STOPS[x])
     side_of_list = {}
+    # ... or a comprehension  L = [(x, STOPS[x]) for x in ...]
+    for n in ast.walk(dm.node):
+        if isinstance(n, ast.Assign) and len(n.targets) == 1 and isinstance(n.targets[0], ast.Name) and isinstance(n.value, ast.ListComp) \
+                and len(n.value.generators) == 1 and isinstance(n.value.elt, ast.Tuple) and len(n.value.elt.elts) == 2:
+            a, b = n.value.elt.elts
+            if isinstance(a, ast.Name) and isinstance(b, ast.Subscript) and isinstance(b.value, ast.Name) and b.value.id in stops and isinstance(b.slice, ast.Name):
+                side_of_list[n.targets[0].id] = stops[b.value.id] if b.slice.id == a.id else "a stop looked up under another start"
     for n in ast.walk(dm.node):
         if isinstance(n, ast.Call) and isinstance(n.func, ast.Attribute) and n.func.attr == "append" and len(n.args) == 1 \
                 and isinstance(n.func.value, ast.Name) and isinstance(n.args[0], ast.Tuple) and len(n.args[0].elts) == 2:
